@@ -150,6 +150,14 @@ func (w *World) BuildScript(ob *Obligation, forCVC5 bool) string {
 		sb.WriteString(a)
 		sb.WriteByte('\n')
 	}
+	// field-address constructors are injective and have pairwise disjoint ranges;
+	// a field address is never nil and never an object allocated by `new`
+	for _, sym := range sortedKeys(w.fldTagsAsAny()) {
+		if !used[sym] {
+			continue
+		}
+		fmt.Fprintf(&sb, "(assert (forall ((b Ref)) (! (and (= (addrtag (%s b)) %d) (= (addrbase (%s b)) b) (= (born (%s b)) (born b))) :pattern ((%s b)))))\n", sym, w.fldTags[sym], sym, sym, sym)
+	}
 	for _, f := range w.strLitFacts(used) {
 		sb.WriteString(f)
 		sb.WriteByte('\n')
@@ -164,6 +172,7 @@ func (w *World) BuildScript(ob *Obligation, forCVC5 bool) string {
 	if len(errs) > 0 {
 		sb.WriteString("(assert (distinct nil " + strings.Join(errs, " ") + "))\n")
 	}
+	sb.WriteString(ob.extraDecls)
 	sb.WriteString(body.String())
 	sb.WriteString("(check-sat)\n")
 	return sb.String()
@@ -262,6 +271,9 @@ func (w *World) Solve(ob *Obligation, cfg *SolveConfig, idx int) {
 		return
 	}
 	script := w.BuildScript(ob, false)
+	if d := os.Getenv("GOVC_DUMP"); d != "" && strings.Contains(ob.Name, d) {
+		os.WriteFile(fmt.Sprintf("/tmp/govc_dump_%s_%d.smt2", strings.ReplaceAll(ob.Name, "/", "_"), idx), []byte(script), 0o644)
+	}
 	scriptC := ""
 	tag := fmt.Sprintf("ob%05d", idx)
 	want := ob.Expect // "unsat" or "sat"
@@ -341,6 +353,33 @@ func (w *World) Solve(ob *Obligation, cfg *SolveConfig, idx int) {
 	case want == "sat" && len(unsat) > 0:
 		ob.Result = "refuted" // vacuous assumptions
 		ob.Solver = strings.Join(unsat, ",")
+		if ob.branchIdx != nil {
+			// which assumption makes the path unsatisfiable? a branch condition: an
+			// ordinary infeasible path; anything else: a vacuity problem of the model
+			lo, hi := 0, len(ob.Assume) // invariant: prefix[:lo] not unsat, prefix[:hi] unsat
+			full := ob.Assume
+			for hi-lo > 1 {
+				mid := (lo + hi) / 2
+				ob.Assume = full[:mid]
+				r := runSolver(solvers[0], w.BuildScript(ob, false), 3, false, cfg.Dir, tag+"v")
+				if r.answer == "unsat" {
+					hi = mid
+				} else {
+					lo = mid
+				}
+			}
+			ob.Assume = full
+			culprit := hi - 1
+			if culprit >= 0 && ob.branchIdx[culprit] {
+				ob.Result = "discharged"
+				ob.Solver = "infeasible path (branch condition)"
+			} else if culprit >= 0 {
+				ob.Output += fmt.Sprintf("assumption #%d makes the returning path unsatisfiable (not a branch condition): %s\n", culprit, firstLines(full[culprit].S, 3))
+				if len(full[culprit].S) > 600 {
+					ob.Output = ob.Output[:len(ob.Output)-1] + "\n"
+				}
+			}
+		}
 	default:
 		ob.Result = "undecided"
 		ob.Solver = "none"
